@@ -612,6 +612,13 @@ func (c *Conn) readRecordOrCCS(expectChangeCipherSpec bool) error {
 		}
 
 		if len(c.rawInputBuf) < recordHeaderLen {
+			// 握手完成后，记录头部未经认证：头部畸形或不属于本连接的数据报
+			// （过短、版本不符、长度越界）与认证失败的记录一样静默丢弃，
+			// 不得中断连接（RFC 6347 §4.1.2.7）；握手期间仍按致命错误处理。
+			if handshakeComplete {
+				c.rawInputBuf = nil
+				continue
+			}
 			return c.in.setErrorLocked(errors.New("dtlcp: record too short"))
 		}
 
@@ -626,6 +633,15 @@ func (c *Conn) readRecordOrCCS(expectChangeCipherSpec bool) error {
 
 		// 版本检查
 		if c.haveVers && vers != c.vers {
+			if handshakeComplete {
+				// 只丢弃这一条记录；长度字段不可用时丢弃数据报的剩余部分
+				if recordHeaderLen+n <= len(c.rawInputBuf) {
+					c.rawInputBuf = c.rawInputBuf[recordHeaderLen+n:]
+				} else {
+					c.rawInputBuf = nil
+				}
+				continue
+			}
 			c.sendAlert(alertProtocolVersion)
 			msg := fmt.Sprintf("received record with version %x when expecting version %x", vers, c.vers)
 			return c.in.setErrorLocked(c.newRecordHeaderError(c.remoteAddr, msg))
@@ -644,11 +660,19 @@ func (c *Conn) readRecordOrCCS(expectChangeCipherSpec bool) error {
 
 		// 长度检查
 		if n > maxCiphertext {
+			if handshakeComplete {
+				c.rawInputBuf = nil
+				continue
+			}
 			c.sendAlert(alertRecordOverflow)
 			msg := fmt.Sprintf("oversized record received with length %d", n)
 			return c.in.setErrorLocked(c.newRecordHeaderError(c.remoteAddr, msg))
 		}
 		if recordHeaderLen+n > len(c.rawInputBuf) {
+			if handshakeComplete {
+				c.rawInputBuf = nil
+				continue
+			}
 			return c.in.setErrorLocked(c.newRecordHeaderError(c.remoteAddr, fmt.Sprintf("record length %d exceeds datagram", n)))
 		}
 
